@@ -90,7 +90,16 @@ def expand_defs(text, files, defs, depth=0):
     Returns False if an included file does not exist (or nesting runs away)."""
     if depth > 50:
         return False
+    skip = False
     for line in text.split("\n"):
+        if line.startswith("#ifndef "):
+            skip = line.split()[1] in defs
+            continue
+        if line.startswith("#endif"):
+            skip = False
+            continue
+        if skip:
+            continue
         m = INC_RE.match(line)
         if m:
             p = m.group(1)
